@@ -177,4 +177,10 @@ theorem escape_nb (cfg : Cfg) (s : St) (e : GErr) : NB (escape cfg s e).2 := by
   · exact NB_andThen (escapeCore_nb _ _ _) (fun _ => stopCall_nb _ _ _ _)
   · exact escapeCore_nb _ _ _
 
+/-- a processed successful join reply is never mistaken for an event that was not enabled -/
+theorem joinOk_ne_bad (cfg : Cfg) (s : St) (m : Nat) (g : Int) (l : Bool) (n : Nat) (hj : ¬ (s.jpc != .join) = true) :
+    (step cfg s (.joinDone (.ok m g l n))).2 ≠ [.badOp] := by
+  by_cases hf : s.hbInFlight = true <;> by_cases hs : s.stopping = true <;> cases l <;>
+    simp [step, hj, hs, hf, abandonHb, andThen]
+
 end Afkak.Group
